@@ -146,8 +146,10 @@ def _inline_pure_flags(tree: ast.AST) -> None:
             x, e = st.targets[0].id, st.value
             if x in params or stores.get(x, 0) != 1 or not isinstance(e, (ast.BoolOp, ast.Compare)) and not (isinstance(e, ast.UnaryOp) and isinstance(e.op, ast.Not)):
                 continue
-            if any(isinstance(y, impure) for y in ast.walk(e)):
+            if any(isinstance(y, impure[1:]) for y in ast.walk(e)):
                 continue
+            if any(isinstance(y, ast.Call) and not (isinstance(y.func, ast.Name) and y.func.id in ("len", "isinstance", "bool") and not y.keywords) for y in ast.walk(e)):
+                continue  # len() / isinstance() of stable names are as stable as the names
             names = {y.id for y in ast.walk(e) if isinstance(y, ast.Name)}
             if not all((nm in params and stores.get(nm, 0) == 0) or stores.get(nm, 0) == 1 or nm not in stores for nm in names):
                 continue
